@@ -11,9 +11,9 @@ from hypothesis import strategies as st
 
 from vlib.core import Part
 from vlib.observe import shape
-from vlib.sched import Sched, SchedTree, next_schedule, yield_point
+from vlib.sched import Sched, SchedTree, SchedTypedTree, next_schedule, yield_point
 
-from nutree import SelectBranch, Tree
+from nutree import SelectBranch, Tree, TypedTree
 
 ID = "C18"
 LEVEL = "exploration"
@@ -62,7 +62,13 @@ class YieldIO(io.StringIO):
         return super().write(s)
 
 
-def base_tree():
+def base_tree(typed=False):
+    if typed:
+        t = SchedTypedTree("T")
+        a = t.add("base1", kind="k0")
+        a.add("b1a", kind="k1")
+        t.add("base2", kind="k0")
+        return t
     t = SchedTree("T")
     a = t.add("base1")
     a.add("b1a")
@@ -70,35 +76,56 @@ def base_tree():
     return t
 
 
+def lab(n):
+    # kinds are not part of the compared shape (the top node of a typed copy gets the default kind: known
+    # finding D10a); typed trees are used because TypedTree.save() reads the kinds of all nodes
+    return f"{n.data}"
+
+
 def tshape(tree):
-    return shape(tree, label=lambda n: f"{n.data}")
+    return shape(tree, label=lab)
+
+
+def add(parent, name, kind_tag=None):
+    """add a node; in typed trees the writer uses a kind that no committed node had before"""
+    if isinstance(parent, (TypedTree,)) or hasattr(parent, "kind"):
+        return parent.add(name, kind=f"k-{kind_tag or name}")
+    return parent.add(name)
 
 
 def rebuild(parent, spec):
     for name, kids in spec:
-        n = parent.add(name)
+        if isinstance(parent, TypedTree) or hasattr(parent, "kind"):
+            n = parent.add(name, kind=f"k-{name}")
+        else:
+            n = parent.add(name)
         rebuild(n, kids)
 
 
 def run_section(tree, kind, tag, committed, nest, inner_op):
     with tree:
         if kind == "pair":
-            a = tree.add(f"{tag}a")
+            a = add(tree, f"{tag}a")
             yield_point("w")
-            a.add(f"{tag}b")
+            add(a, f"{tag}b")
         elif kind == "rebuild":
             saved = tshape(tree)
             tree.clear()
             yield_point("w")
             rebuild(tree, saved)
             yield_point("w")
-            tree.add(f"{tag}")
-        else:  # move
-            a = tree.add(f"{tag}a")
+            add(tree, f"{tag}")
+        else:  # move (typed trees cannot move: add the pair in two steps instead)
+            a = add(tree, f"{tag}a")
             yield_point("w")
-            b = tree.add(f"{tag}b")
-            yield_point("w")
-            b.move_to(a)
+            if isinstance(tree, TypedTree):
+                add(a, f"{tag}b")
+                yield_point("w")
+                add(a, f"{tag}c")
+            else:
+                b = tree.add(f"{tag}b")
+                yield_point("w")
+                b.move_to(a)
         if nest:
             # re-entrancy: the owner nests `with tree:` and calls a snapshot operation inside
             with tree:
@@ -119,7 +146,7 @@ def y_mapper(node, data):
 
 
 DOT_NODE = re.compile(r'^  (\S+)(?: \[label="([^"]*)".*\])?$')
-DOT_EDGE = re.compile(r'^  (\S+) -> (\S+)')
+DOT_EDGE = re.compile(r'^  (\S+) -> (\S+)(?: \[label="([^"]*)"\])?')
 
 
 def do_reader_op(tree, op):
@@ -131,8 +158,17 @@ def do_reader_op(tree, op):
         nodes = [None]
         top = []
         kids = {0: top}
+        vm = doc["meta"].get("$value_map", {}).get("kind")
         for i, (p, payload) in enumerate(doc["nodes"], 1):
-            name = payload if isinstance(payload, str) else (nodes[payload][0] if isinstance(payload, int) else payload.get("str", payload.get("s")))
+            if isinstance(payload, str):
+                name = payload
+            elif isinstance(payload, int):
+                name = nodes[payload][0]
+            else:
+                name = payload.get("str", payload.get("s"))
+                k = payload.get("kind", payload.get("k"))
+                if isinstance(k, int) and vm is not None and not (0 <= k < len(vm)):
+                    name = f"{name}:<kind index out of range>"
             n = [name, []]
             nodes.append(n)
             kids[i] = n[1]
@@ -145,7 +181,7 @@ def do_reader_op(tree, op):
     if op == "filtered":
         return tshape(tree.filtered(sel_pred))
     if op == "copy_to":
-        other = Tree("O")
+        other = TypedTree("O") if isinstance(tree, TypedTree) else Tree("O")
         tree.copy_to(other)
         return tshape(other)
     if op == "to_dict_list":
@@ -171,10 +207,10 @@ def do_reader_op(tree, op):
             elif section == "e":
                 m = DOT_EDGE.match(ln)
                 if m:
-                    edges.append((m.group(1), m.group(2)))
+                    edges.append((m.group(1), m.group(2), m.group(3)))
         nodes = {k: [v, []] for k, v in labels.items()}
         top = []
-        for p, c in edges:
+        for p, c, kind in edges:
             if c not in nodes:
                 return [["<edge to undefined node>", []]]
             (top if p == "0" else nodes[p][1] if p in nodes else top).append(nodes[c])
@@ -186,7 +222,7 @@ def do_reader_op(tree, op):
             for n in tree:
                 yield_point("iter")
                 d = n.depth()
-                item = [f"{n.data}", []]
+                item = [lab(n), []]
                 stack[d - 1].append(item)
                 stack[d] = item[1]
             return out
@@ -195,7 +231,7 @@ def do_reader_op(tree, op):
 
 def run_program(program, schedule):
     """-> (violations list, info)"""
-    tree = base_tree()
+    tree = base_tree(program.get("typed", False))
     committed = [tshape(tree)]
     results = []
     S = Sched(schedule)
@@ -248,6 +284,7 @@ def run_random(case, rec):
     rec.evals += 1
     rec.nt(info["blocked"] >= 1)
     rec.cls("blocked" if info["blocked"] else "never-blocked")
+    rec.cls("typed" if case["program"].get("typed") else "plain")
     for r in case["program"]["readers"]:
         for op in r:
             rec.cls(f"op={op}")
@@ -334,6 +371,9 @@ def enum_cases(tier):
             if tier == "quick" and kind == "rebuild" and op not in ("to_dict_list", "copy_pred", "to_dotfile", "save"):
                 continue
             yield {"program": {"writers": [[{"kind": kind}]], "readers": [[op]]}, "limit": 4000 if tier == "quick" else 100000}
+    # typed trees: the writer introduces a kind that no committed node had before
+    for op in (["save", "copy", "to_dotfile"] if tier == "quick" else READER_OPS):
+        yield {"program": {"typed": True, "writers": [[{"kind": "pair"}]], "readers": [[op]]}, "limit": 4000 if tier == "quick" else 100000}
     if tier == "thorough":
         for op in READER_OPS:
             yield {"program": {"writers": [[{"kind": "pair"}, {"kind": "rebuild"}]], "readers": [[op]]}, "limit": 50000}
@@ -352,7 +392,10 @@ def hyp_cases(draw, tier):
     writers = draw(st.lists(st.lists(sec, min_size=1, max_size=3), min_size=1, max_size=2))
     readers = draw(st.lists(st.lists(st.sampled_from(READER_OPS), min_size=1, max_size=3), min_size=1, max_size=3))
     schedule = draw(st.lists(st.sampled_from([0, 1, 2, 3, 4]), min_size=40, max_size=120))
-    return {"program": {"writers": writers, "readers": readers}, "schedule": schedule}
+    prog = {"writers": writers, "readers": readers}
+    if draw(st.sampled_from([0, 0, 1])):
+        prog["typed"] = True
+    return {"program": prog, "schedule": schedule}
 
 
 PARTS = [
